@@ -209,8 +209,10 @@ func runC09_1(c *Ctx) {
 						}
 					}
 				}
-				// the OK edge continues the loop (reaches the invoke again or the final return)
-				stop = len(again) == 0 && retOK
+				// the OK edge continues the loop: the next plugin's hook is still reachable (a `return` on the OK
+				// edge would let the first plugin's verdict stand for all later ones, e.g. skip the auth checker)
+				cont := p.ReachableFromBlock(e.True, func(i ssa.Instruction) bool { return i == ssa.Instruction(inv) }, nil, nil)
+				stop = len(again) == 0 && retOK && len(cont) > 0
 			}
 		case "error", "fatal":
 			for _, e := range NilCmpEdges(fn, func(v ssa.Value) bool { return v == ssa.Value(inv) }) {
@@ -224,7 +226,8 @@ func runC09_1(c *Ctx) {
 							retOK = false
 						}
 					}
-					stop = len(again) == 0 && retOK
+					cont := p.ReachableFromBlock(e.Nil, func(i ssa.Instruction) bool { return i == ssa.Instruction(inv) }, nil, nil)
+					stop = len(again) == 0 && retOK && len(cont) > 0
 				} else {
 					// Fatalf: no-return, so neither an exit nor another invoke is reachable
 					stop = len(again) == 0 && len(w.Exits) == 0
